@@ -137,7 +137,7 @@ fn pair_case(ctx: &mut Ctx, p: &[u8], t: &[u8]) {
 
 fn small_sweep(tier: Tier, shard: usize, nshards: usize, ctx: &mut Ctx) {
     // {a,b}: p in 1..=P, t in 0..=T ; {a,b,c}: p<=P3, t<=T3
-    let (pmax, tmax, p3, t3) = tier.pick((5, 10, 3, 6), (7, 13, 4, 8));
+    let (pmax, tmax, p3, t3) = tier.pick((7, 13, 4, 8), (9, 15, 5, 10));
     let mut idx = 0usize;
     for (alpha, pm, tm) in [(&b"ab"[..], pmax, tmax), (&b"abc"[..], p3, t3)] {
         let pats = gen::strings(alpha, 1, pm);
@@ -287,7 +287,7 @@ impl Prop for C08Prop {
         ]
     }
     fn bounds(&self, tier: Tier) -> Value {
-        let (pmax, tmax, p3, t3) = tier.pick((5, 10, 3, 6), (7, 13, 4, 8));
+        let (pmax, tmax, p3, t3) = tier.pick((7, 13, 4, 8), (9, 15, 5, 10));
         json!({
             "binary": {"pattern_len": format!("1..={}", pmax), "text_len": format!("0..={}", tmax)},
             "ternary": {"pattern_len": format!("1..={}", p3), "text_len": format!("0..={}", t3)},
